@@ -20,6 +20,18 @@ ASSUMPTIONS = [
 
 PROPS = {
 
+    "C13": {"rule": "exhaustive: all 65536 values of u16 and i16 in both directions and all 256 PodBool bytes (sent to Coq as three blobs and compared by one recursive check each); "
+            "u32/u64/u128/i64: boundary values (0, 1, max, max-1, top bit, single bits, a byte-order pattern) and random values; usize conversions at 0, 65535/6/7, 2^32+-1, usize::MAX, 2^63 and random; "
+            "byte casts of every slice length 0..64 for the 7 Pod types (pod_from_bytes, pod_maybe_from_bytes, pod_slice_from_bytes, with pointer aliasing checked); "
+            "Borsh/Serde/Wincode equality with the primitive on every value (harness) and per feature set of spl-pod alone (pod-matrix crate: quick = none, each single feature, all; thorough = all 16); "
+            "thorough adds an exhaustive u32 loop on the implementation", "partial": ["Borsh, Serde and Wincode encodings equal the primitive's: third-party derives, decided by differential execution only"],
+            "masks": [], "extra": "pod_matrix",
+            "assumptions": ["usize is 64 bits (the host the libraries are tested on)"]},
+    "C14": {"rule": "Address carrier: zero, all-ones, all 256 single-bit patterns, one non-zero byte at each of the 32 positions, random sparse values; u64 carrier (test Nullable impl, none = 0): 0, 1, max, single bits, random; "
+            "every path on every value: get/as_ref/as_mut/copied/cloned, From<T>, into Option/COption, TryFrom<Option>/<COption>, default, byte cast, Borsh, Serde; non-trivial = a some-value",
+            "partial": ["memory and Borsh images equal the wrapped value's; Serde writes none as null and rejects Some(none): decided by differential execution"], "masks": [],
+            "assumptions": []},
+
     "C09": {"rule": "histories of 1-16 operations (init, push, remove(i) in/out of range, element write in/out of range, sort by element bytes, interleaved queries: "
             "reopen read-only/mutably, visible slice, bytes_used/allocated) over 10 element types (sizes 1,3,35,2,4,8,16,16,0,0; alignments 1..16) x 4 prefix widths, capacities 0..8 "
             "(+ 1-3 slop bytes in 10%), arena offsets aligned and (1/8) arbitrary, buffers pre-filled with random bytes; the PodU16 boundary (capacity 65535/65536, stored 65534/65535); "
